@@ -16,7 +16,7 @@ import (
 // canonical form after erasing the width's unsigned integer type and its typed accessor.
 func K1w(rc *RC, filter func(stem string) bool, floor int) {
 	rc.S.Declare("K1w", "width-family uniformity: the 1/2/4/8-byte members of a hand-written per-width helper are identical after erasing the width's element type", floor)
-	widthKind := map[string]types.BasicKind{"1": types.Uint8, "2": types.Uint16, "4": types.Uint32, "8": types.Uint64}
+	widthKind := map[string]types.BasicKind{"1": types.Uint8, "2": types.Uint16, "4": types.Uint32, "8": types.Uint64, "String": types.String}
 	type mem struct {
 		fi   *load.FuncInfo
 		w    string
@@ -30,6 +30,9 @@ func K1w(rc *RC, filter func(stem string) bool, floor int) {
 			continue
 		}
 		w := name[len(name)-1:]
+		if strings.HasSuffix(name, "String") {
+			w = "String"
+		}
 		if _, ok := widthKind[w]; !ok {
 			continue
 		}
@@ -53,6 +56,9 @@ func K1w(rc *RC, filter func(stem string) bool, floor int) {
 			c := ir.NewCanon(rc.P.Fset, m.fi.Pkg.TypesInfo, ir.Options{ElemType: types.Typ[k], Suffix: spec.SuffixOf(k), TokKind: TokensOf(rc.P).Tok, Kind: k, HasKind: true})
 			tree := c.Func(m.fi.Decl)
 			m.text = ir.Render(tree)
+			if m.w == "String" {
+				m.text = strings.ReplaceAll(m.text, `""`, "0") // the zero value of the element type
+			}
 			m.note = c.Notes
 		}
 		// majority
